@@ -531,3 +531,17 @@ Proof.
   rewrite Hn. replace (bt_number b <=? lo) with false by (symmetry; apply Z.leb_gt; lia).
   apply IH; [exact H|lia].
 Qed.
+
+(* FileControl.Validate from the side conditions *)
+Lemma fits_validate_fctl T c : fctl_fits T c -> (fc_credit c <> 0 \/ fc_debit c <> 0 -> fc_batches c <> 0) ->
+  validate_fctl T c = ROk.
+Proof.
+  intros (Hd & Hc & Hnz) Hb. unfold validate_fctl. repeat (rewrite andr_ok; split).
+  - destruct (negb (fc_credit c =? 0) || negb (fc_debit c =? 0)) eqn:E; [|reflexivity].
+    assert (Hm : fc_credit c <> 0 \/ fc_debit c <> 0).
+    { apply orb_prop in E as [E|E]; apply negb_true_iff, Z.eqb_neq in E; [left|right]; exact E. }
+    destruct (Hnz Hm) as [H1 H2]. specialize (Hb Hm).
+    repeat (rewrite andr_ok; split); apply chk_intro; now apply negb_true_iff, Z.eqb_neq.
+  - apply chk_intro. now apply Z.leb_le.
+  - apply chk_intro. now apply Z.leb_le.
+Qed.
